@@ -612,6 +612,7 @@ fn main() {
                 "hooks_eq" => hooks == v.as_i64().unwrap(),
                 "metric_ne" => metric != v.as_i64().unwrap(),
                 "status_is" => status == v.as_str().unwrap(),
+                "status_is_not" => status != v.as_str().unwrap(),
                 "code_contains" => code.contains(v.as_str().unwrap()),
                 "code_not_contains" => !code.contains(v.as_str().unwrap()),
                 "content_contains" => content.contains(v.as_str().unwrap()),
